@@ -116,6 +116,15 @@ impl Prop for C05 {
                 .hang(None)
                 .shards(8)
                 .floor(tier.pick(40, 3_000)),
+            // one pipe carrying 66 000 - 140 000 items (beyond 2^16 and 2^17 tickets), free
+            // running with 2 - 8 workers, slow items around the 2^16 boundaries
+            // (two shards only: every worker of the repo's pipe spins while it waits for its turn,
+            // so many concurrent pipes on a loaded machine starve each other)
+            Lane::new("long", tier.pick(6, 48))
+                .cap(tier.pick(600, 1500))
+                .hang(None)
+                .shards(2)
+                .floor(tier.pick(2, 12)),
         ]
     }
 
@@ -130,12 +139,14 @@ impl Prop for C05 {
          3000 (thorough 8000), seeded delays at the points (yield / busy 1-60us / sleep <=1.5ms, \
          boosted in the window between send and turn advance), slow items, slow upstream items, \
          consumer pauses. lane stall: one item or one upstream pull stalls for 33 s (thorough: up to \
-         130 s), so that anything with a timeout or a bounded spin shows. Oracle in all lanes: output == [f(x0)..f(x_{n-1})] with f injective tags, every item processed exactly once \
+         130 s), so that anything with a timeout or a bounded spin shows. lane long: one pipe with \
+         66 000-140 000 items (beyond 2^16 / 2^17 tickets), 2-8 free running workers, slow items \
+         around the 2^16 boundaries. Oracle in all lanes: output == [f(x0)..f(x_{n-1})] with f injective tags, every item processed exactly once \
          (per-item call counters), next() returns None after the n-th item and keeps returning None, \
          upstream iterator dropped (all workers exited). A state in which every live participant is \
          futile (spins at the same point / sleeps in a real blocking call) is a deadlock violation. \
          non-trivial = W>=2, n>=3 and at least one step where the granted participant was not the \
-         first enabled one (sched) resp. W>=2, n>=3 and delays enabled (chaos)."
+         first enabled one (sched) resp. W>=2, n>=3 and delays enabled (chaos) resp. W>=2 and n>65536 (long)."
     }
 
     fn assumptions() -> Vec<&'static str> {
@@ -227,6 +238,32 @@ impl Prop for C05 {
                 } else {
                     None
                 },
+            }
+        } else if lane == "long" {
+            let threads = *[2u8, 3, 4, 4, 8].get(rng.random_range(0..5)).unwrap();
+            let n = rng.random_range(66_000..=140_000usize);
+            let mut slow = vec![];
+            for b in [65_536usize, 131_072] {
+                for _ in 0..rng.random_range(0..=3) {
+                    let at = b - 4 + rng.random_range(0..8);
+                    if at < n {
+                        slow.push((at, rng.random_range(200..30_000u32)));
+                    }
+                }
+            }
+            Case {
+                lane: lane.to_string(),
+                threads,
+                n,
+                strategy: Strategy::Random,
+                sseed: rng.random(),
+                // (injected delays keep the other workers spinning: level 1 only with few workers)
+                chaos_level: if threads <= 4 && rng.random_range(0..4) == 0 { 1 } else { 0 },
+                slow,
+                pause_every: 0,
+                pause_us: 0,
+                slow_src: vec![],
+                second_pipe: None,
             }
         } else {
             let threads = *[0u8, 1, 2, 2, 3, 4, 4, 8, 16, 64]
@@ -539,6 +576,8 @@ impl Prop for C05 {
             true
         } else if controlled {
             w >= 2 && c.n >= 3 && nontrivial_choices > 0
+        } else if c.lane == "long" {
+            w >= 2 && c.n > 65_536
         } else {
             w >= 2 && c.n >= 3 && c.chaos_level > 0
         };
